@@ -5,6 +5,7 @@ from ..grids import gen_structured, relayout, make_grid, MGrid
 from ..world import dt, mag
 
 import numpy as np
+import finam as fm
 from finam import Info, Input, Output, Mask
 from finam.adapters.base import Scale
 
@@ -96,6 +97,10 @@ def generate(tape, tier="quick"):
         # the consumer lags: everything is published first, then every publication is pulled (several pulls
         # between two notifications, each served from another retained publication)
         sc["late_pulls"] = True
+    if tape.chance(1, 4):
+        # a copy of the producer's grid object was switched to the other data location and read first (the usual way
+        # to get the point grid that belongs to a cell grid): the original stays what it was
+        sc["copy_twin"] = True
     if sc["masked"]:
         if tape.chance(1, 3):
             # the same physical mask declared in the metadata of BOTH ends, each in its own layout
@@ -111,13 +116,29 @@ def execute(sc):
         viol.append({"oracle": oracle, "kind": kind, "msg": msg})
 
     ga, gb = make_grid(sc["a"]), make_grid(sc["b"])
+    if sc.get("copy_twin") and sc["a"]["type"] in ("uniform", "rectilinear"):
+        try:
+            tw = ga.copy()
+            tw.data_location = fm.Location.POINTS if ga.data_location == fm.Location.CELLS else fm.Location.CELLS
+            _ = (tw.data_shape, tw.data_size, len(tw.data_points))
+        except Exception as e:      # noqa: BLE001
+            v("canon-roundtrip", "copy", f"copying grid {sc['a']} and switching the copy's data location raised {type(e).__name__}: {e}")
     ma, mb = MGrid(sc["a"]), MGrid(sc["b"])
     coef = sc["coef"][: ma.dim + 1]
     fa = ma.field(coef)
     # ---- round trip and canonical order
     for g, m, f in ((ga, ma, fa),):
-        can = g.to_canonical(f)
-        back = g.from_canonical(can)
+        try:
+            can = g.to_canonical(f)
+            back = g.from_canonical(can)
+        except Exception as e:      # noqa: BLE001
+            from ..core import raised_in_finam
+            if not raised_in_finam(e):
+                raise
+            v("canon-roundtrip", type(e).__name__, f"to_canonical / from_canonical refused data in the grid's own data "
+              f"shape {np.shape(f)} for grid {sc['a']}: {type(e).__name__}: {e}")
+            return {"violations": viol, "digest": digest_of(sc), "nontrivial": True, "probes": {}, "faults": {},
+                    "sig": "exc", "cls": "exception", "sim_hours": 0, "outcome": {}}
         if np.shape(back) != np.shape(f) or not np.array_equal(back, f):
             v("canon-roundtrip", "identity", f"from_canonical(to_canonical(x)) != x for grid {sc['a']}")
         la = m.loc_axes()
